@@ -578,6 +578,11 @@ def queries(tier):
                      "500 from a handler whose exception message is the request text, Accept: %s, json.dumps replaced by "
                      "PyJson.dumps; %s" % (JSON, where(pos, "plain", n)),
                      timeout=timeout, expect_cover=["json-body"], family="json-text", config={"pos": pos, "n": n}))
+    # the configuration dimension: the same settings (debug off) reached through app.setup / a second setup call
+    from vf import appconfigs
+    cheap = {"html/500text/qs/plain", "html/500/qs/plain", "html/404/path/plain", "html/critical/qs/plain", "html/400/qs/plain"}
+    out += appconfigs.variants(list(out), ["setup-twice", "setup"] if not T else sorted(appconfigs.ROUTES_TO_CONFIG),
+                               lambda q: q.qid in cheap)
     return out
 
 
